@@ -1306,6 +1306,17 @@ fn eval_c05_table(x: &[i128]) -> Result<(), Mismatch> {
 }
 
 fn gen_c05_rule(rng: &mut Rng, n: usize, emit: &mut dyn FnMut(Vec<i128>) -> bool) {
+    // permanent daylight time (end of year y = start of year y + 1), as in the tz database documentation
+    let perm = o::Alt { std_off: -18000, dst_off: -14400, start: o::Day::J0(0), start_time: 0, end: o::Day::J1(365), end_time: 90000 };
+    for y in [2000i128, 2021, 2024] {
+        for dl in [-3600i128, -1, 0, 1800, 3600, 86400 * 100] {
+            let mut e = enc_alt(&perm);
+            e.push(perm.s(y) + perm.dst_off + dl);
+            if !emit(e) {
+                return;
+            }
+        }
+    }
     let mut round = 0;
     let mut produced = 0;
     while produced < n && round < n * 30 {
@@ -1334,6 +1345,15 @@ fn gen_c05_rule(rng: &mut Rng, n: usize, emit: &mut dyn FnMut(Vec<i128>) -> bool
 
 /// rule-only zone: valid results are the candidates L - std, L - dst whose clock shows L; gaps at forward switches
 fn eval_c05_rule(x: &[i128]) -> Result<(), Mismatch> {
+    eval_c05_rule_inner(x, false)
+}
+
+/// same without the carve-out for non-interleaving rules: replays the witness of known finding F3
+fn eval_c05_rule_full(x: &[i128]) -> Result<(), Mismatch> {
+    eval_c05_rule_inner(x, true)
+}
+
+fn eval_c05_rule_inner(x: &[i128], include_non_interleaving: bool) -> Result<(), Mismatch> {
     let a = dec_alt(x);
     let local = x[12];
     let alt = match real_alt(&a) {
@@ -1341,6 +1361,11 @@ fn eval_c05_rule(x: &[i128]) -> Result<(), Mismatch> {
         _ => return Ok(()),
     };
     if !a.order_stable() {
+        return Ok(());
+    }
+    // C04 defines the clock of a DST rule only for rules whose start/end instants interleave; accepted rules outside that
+    // class (e.g. an end instant that falls before the previous year's start) are known finding F3's territory
+    if !a.interleaving() && !include_non_interleaving {
         return Ok(());
     }
     let types = [*alt.std(), *alt.dst()];
@@ -1351,10 +1376,18 @@ fn eval_c05_rule(x: &[i128]) -> Result<(), Mismatch> {
     };
     let f = o::fields(local);
     let cy = f.0;
-    // the evaluator's known-defect class (F2) is left out, as in C04
-    for yy in cy - 2..=cy + 2 {
-        if !a.start_first() && a.s(yy) == a.e(yy) {
-            return Ok(());
+    // known findings: F2 (end-first rule in a year where start = end: the evaluator misreads the whole year) - such inputs
+    // are skipped; F4 (a zero-length segment, start instant = end instant, is reported as a gap, e.g. permanent DST) - near
+    // such coincidences only the valid results are compared, not the gap entries
+    let mut skip_gaps = false;
+    if !include_non_interleaving {
+        for yy in cy - 2..=cy + 2 {
+            if !a.start_first() && a.s(yy) == a.e(yy) {
+                return Ok(());
+            }
+            if a.s(yy) == a.e(yy) || a.e(yy) == a.s(yy + 1) || a.s(yy) == a.e(yy + 1) {
+                skip_gaps = true;
+            }
         }
     }
     let list = match DateTime::find(f.0 as i32, f.1 as u8, f.2 as u8, f.3 as u8, f.4 as u8, f.5 as u8, 0, tz) {
@@ -1376,6 +1409,9 @@ fn eval_c05_rule(x: &[i128]) -> Result<(), Mismatch> {
     if act_n != exp_n || !ordered {
         return Err((format!("valid results {exp_n:?} in ascending order"), format!("{act_n:?} ordered={ordered}")));
     }
+    if skip_gaps {
+        return Ok(());
+    }
     // gaps: a switch at instant T from offset p to a larger offset q with T + p <= local < T + q, only where the type really changes
     let mut exp_g: Vec<i128> = Vec::new();
     for yy in cy - 2..=cy + 2 {
@@ -1396,6 +1432,70 @@ fn eval_c05_rule(x: &[i128]) -> Result<(), Mismatch> {
     Ok(())
 }
 
+
+/// C06 at the junction of a transition table with a trailing DST rule: the last table transition sits exactly on a
+/// rule-generated instant; a local time in that gap is reported by exactly one Skipped entry and nothing else, a local
+/// time in the fold at a backward junction by exactly two valid results
+fn gen_c06_junction(_rng: &mut Rng, _n: usize, emit: &mut dyn FnMut(Vec<i128>) -> bool) {
+    for y in [2021i128, 2037] {
+        for south in 0..2i128 {
+            for last_is_start in 0..2i128 {
+                for dl in [0i128, 1, 1800, 3599] {
+                    if !emit(vec![y, south, last_is_start, dl]) {
+                        return;
+                    }
+                }
+            }
+        }
+    }
+}
+
+fn eval_c06_junction(x: &[i128]) -> Result<(), Mismatch> {
+    let (y, south, last_is_start, dl) = (x[0], x[1], x[2], x[3]);
+    let a = if south == 1 {
+        o::Alt { std_off: 36000, dst_off: 39600, start: o::Day::M(10, 1, 0), start_time: 7200, end: o::Day::M(4, 1, 0), end_time: 10800 }
+    } else {
+        o::Alt { std_off: 3600, dst_off: 7200, start: o::Day::M(3, 5, 0), start_time: 7200, end: o::Day::M(10, 5, 0), end_time: 10800 }
+    };
+    // table: the transitions of year y up to and including the junction instant, in chronological order
+    let mut evs = vec![(a.s(y), 1usize), (a.e(y), 0usize)];
+    evs.sort();
+    let last_ev = if last_is_start == 1 { (a.s(y), 1usize) } else { (a.e(y), 0usize) };
+    let trans: Vec<(i128, usize)> = evs.into_iter().filter(|e| e.0 <= last_ev.0).collect();
+    let first_type = 1 - trans[0].1;
+    let b = Built {
+        leaps: vec![],
+        trans: trans.iter().map(|t| Transition::new(t.0 as i64, t.1)).collect(),
+        types: vec![LocalTimeType::new(a.std_off as i32, false, Some(b"STD")).unwrap(), LocalTimeType::new(a.dst_off as i32, true, Some(b"DST")).unwrap()],
+        rule: Some(TransitionRule::Alternate(real_alt(&a).unwrap().map_err(|e| ("rule accepted".to_string(), format!("{e:?}")))?)),
+    };
+    // the zone's first type is type 0 = STD; make the table start accordingly
+    if first_type != 0 {
+        return Ok(());
+    }
+    let tz = TimeZoneRef::new(&b.trans, &b.types, &b.leaps, &b.rule).map_err(|e| ("zone accepted".to_string(), format!("Err({e:?})")))?;
+    let t = last_ev.0;
+    let (p, q) = if last_ev.1 == 1 { (a.std_off, a.dst_off) } else { (a.dst_off, a.std_off) };
+    let forward = q > p;
+    let local = if forward { t + p + dl } else { t + q + dl };
+    let f = o::fields(local);
+    let v = DateTime::find(f.0 as i32, f.1 as u8, f.2 as u8, f.3 as u8, f.4 as u8, f.5 as u8, 0, tz).map_err(|e| ("search Ok".to_string(), format!("Err({e:?})")))?.into_inner();
+    let normals: Vec<i128> = v.iter().filter_map(|k| match k { FoundDateTimeKind::Normal(d) => Some(d.unix_time() as i128), _ => None }).collect();
+    let gaps: Vec<i128> = v.iter().filter_map(|k| match k { FoundDateTimeKind::Skipped { before_transition, .. } => Some(before_transition.unix_time() as i128), _ => None }).collect();
+    if forward {
+        if !normals.is_empty() || gaps != vec![t] {
+            return Err((format!("exactly one gap entry at {t}, no valid result"), format!("valid {normals:?} gaps {gaps:?}")));
+        }
+    } else {
+        let mut want = vec![local - p, local - q];
+        want.sort();
+        if normals != want || !gaps.is_empty() {
+            return Err((format!("valid results {want:?}, no gap"), format!("valid {normals:?} gaps {gaps:?}")));
+        }
+    }
+    Ok(())
+}
+
 fn gen_none(_: &mut Rng, _: usize, _: &mut dyn FnMut(Vec<i128>) -> bool) {}
 
 // ----------------------------------------------------------------------------------------------
@@ -1409,8 +1509,12 @@ const PROBES: &[Probe] = &[
     Probe { name: "C04/rule_full", property: "-", gen: gen_none, eval: eval_c04_full },
     Probe { name: "C05/table_search", property: "C05", gen: gen_c14_search, eval: eval_c05_table },
     Probe { name: "C05/rule_search", property: "C05", gen: gen_c05_rule, eval: eval_c05_rule },
+    Probe { name: "C05/rule_search_full", property: "-", gen: gen_none, eval: eval_c05_rule_full },
     Probe { name: "C06/table_search", property: "C06", gen: gen_c14_search, eval: eval_c05_table },
     Probe { name: "C06/rule_search", property: "C06", gen: gen_c05_rule, eval: eval_c05_rule },
+    Probe { name: "C06/junction_gap", property: "C06", gen: gen_c06_junction, eval: eval_c06_junction },
+    Probe { name: "C06/buffer_accessors", property: "C06", gen: gen_c14_search, eval: eval_c17 },
+    Probe { name: "C05/junction_gap", property: "C05", gen: gen_c06_junction, eval: eval_c06_junction },
     Probe { name: "C11/new", property: "C11", gen: gen_c11, eval: eval_c11 },
     Probe { name: "C12/transition_instant", property: "C12", gen: gen_c12, eval: eval_c12 },
     Probe { name: "C12/junction_roundtrip", property: "C12", gen: gen_c12_junction, eval: eval_c12_junction },
